@@ -3,6 +3,8 @@
 package tlb
 
 import (
+	"bytes"
+
 	"github.com/tonkeeper/tongo/boc"
 	"github.com/tonkeeper/tongo/zzvrt"
 )
@@ -63,3 +65,25 @@ func VH_C08_tlb_SnakeData(nbits, nrefs, cbits int) {
 	vDecodeTotal(nbits, nrefs, cbits, func(c *boc.Cell) error { var x SnakeData; return Unmarshal(c, &x) })
 }
 
+
+// VmStack.UnmarshalTL sits on lite-server answers (runSmcMethod result: TL bytes holding a bag of
+// cells): for every TL byte string whose payload of length L starts with the generic magic (other bytes
+// symbolic) it returns a stack or an error, never a run-time panic.
+func VH_C08_vmstack_tl(L int) {
+	b := zzvrt.NondetBytes("boc", L)
+	if L >= 4 {
+		zzvrt.Assume(b[0] == 0xb5 && b[1] == 0xee && b[2] == 0x9c && b[3] == 0x72)
+	}
+	if L >= 6 {
+		zzvrt.Assume(b[4]&7 == 1 && b[5] == 1)
+	}
+	wire := []byte{byte(L)}
+	wire = append(wire, b...)
+	for len(wire)%4 != 0 {
+		wire = append(wire, 0)
+	}
+	var s VmStack
+	err := s.UnmarshalTL(bytes.NewReader(wire))
+	zzvrt.Cover("decoded", err == nil)
+	zzvrt.ObserveBool("err", err != nil)
+}
